@@ -233,20 +233,16 @@ theorem superblocks_eq_model (t : Bool) (bits : List Bool) (s : Nat) (hs : 0 < s
 /-! ### generated code = specification -/
 open RbV.Spec.RankSelect (rank rankRef)
 
-/-- **`rank_1` / `rank_0` exact**: build the superblock table with the translated `fn superblocks` (`s = 32·k`, as
-`RankSelect::new(bits, k)` does), then the translated `rank_1(i)` / `rank_0(i)` on it return the number of 1-bits / 0-bits
-among positions `0..=i` of the bit vector — `None` exactly beyond the end — for every bit vector of fewer than 2^60 bits,
-every `k ≥ 1` and every `i`; nothing panics. -/
-theorem rank_source_exact (bits : List Bool) (k : Nat) (hk : 1 ≤ k) (hn : bits.length < 2 ^ 60)
-    (hcd : CeilOk cd8 bits.length) (sbs0 : List SbRank) (i : Nat) :
-    ∃ sbs1, Gen.SrcRankSelect.superblocks (σ := SbRank) blockByte List.length bl cd8
-          SbRank.first SbRank.some SbRank.val true bits.length (k * 32) bits = Res.ok sbs1 ∧
-      Gen.SrcRankSelect.rank1 (σ := SbRank) blockByte List.length bl cd8 SbRank.first SbRank.some SbRank.val
-          bits.length bits sbs1 sbs0 (k * 32) k i = Res.ok (rankRef true bits i) ∧
-      Gen.SrcRankSelect.rank0 (σ := SbRank) blockByte List.length bl cd8 SbRank.first SbRank.some SbRank.val
-          bits.length bits sbs1 sbs0 (k * 32) k i = Res.ok (rankRef false bits i) := by
+/-- the translated `rank_1` / `rank_0` on the table the model's `superblocks` builds are the declarative ranks -/
+theorem rank_on_superblocks (bits : List Bool) (k : Nat) (hk : 1 ≤ k) (hn : bits.length < 2 ^ 60)
+    (sbs0 : List SbRank) (i : Nat) :
+    Gen.SrcRankSelect.rank1 (σ := SbRank) blockByte List.length bl cd8 SbRank.first SbRank.some SbRank.val
+        bits.length bits (Model.RankSelect.superblocks true bits.length (k * 32) (getBlock bits)) sbs0 (k * 32) k i
+      = Res.ok (rankRef true bits i) ∧
+    Gen.SrcRankSelect.rank0 (σ := SbRank) blockByte List.length bl cd8 SbRank.first SbRank.some SbRank.val
+        bits.length bits (Model.RankSelect.superblocks true bits.length (k * 32) (getBlock bits)) sbs0 (k * 32) k i
+      = Res.ok (rankRef false bits i) := by
   have hs : 0 < k * 32 := by omega
-  refine ⟨_, superblocks_eq_model bl cd8 true bits (k * 32) hs hn hcd, ?_⟩
   have hsb : i < bits.length → i / (k * 32)
       < (Model.RankSelect.superblocks true bits.length (k * 32) (getBlock bits)).length := by
     intro h
@@ -277,5 +273,19 @@ theorem rank_source_exact (bits : List Bool) (k : Nat) (hk : 1 ≤ k) (hn : bits
       rw [List.length_take] at h1
       omega
     · cases h
+
+/-- **`rank_1` / `rank_0` exact**: build the superblock table with the translated `fn superblocks` (`s = 32·k`, as
+`RankSelect::new(bits, k)` does), then the translated `rank_1(i)` / `rank_0(i)` on it return the number of 1-bits / 0-bits
+among positions `0..=i` of the bit vector — `None` exactly beyond the end — for every bit vector of fewer than 2^60 bits,
+every `k ≥ 1` and every `i`; nothing panics. -/
+theorem rank_source_exact (bits : List Bool) (k : Nat) (hk : 1 ≤ k) (hn : bits.length < 2 ^ 60)
+    (hcd : CeilOk cd8 bits.length) (sbs0 : List SbRank) (i : Nat) :
+    ∃ sbs1, Gen.SrcRankSelect.superblocks (σ := SbRank) blockByte List.length bl cd8
+          SbRank.first SbRank.some SbRank.val true bits.length (k * 32) bits = Res.ok sbs1 ∧
+      Gen.SrcRankSelect.rank1 (σ := SbRank) blockByte List.length bl cd8 SbRank.first SbRank.some SbRank.val
+          bits.length bits sbs1 sbs0 (k * 32) k i = Res.ok (rankRef true bits i) ∧
+      Gen.SrcRankSelect.rank0 (σ := SbRank) blockByte List.length bl cd8 SbRank.first SbRank.some SbRank.val
+          bits.length bits sbs1 sbs0 (k * 32) k i = Res.ok (rankRef false bits i) :=
+  ⟨_, superblocks_eq_model bl cd8 true bits (k * 32) (by omega) hn hcd, rank_on_superblocks bl cd8 bits k hk hn sbs0 i⟩
 
 end RbV.Thm.GenSrcRankSelect
